@@ -74,7 +74,14 @@ const (
 	sConst             // _ = pkg.C
 	sLocalShade        // x := 1 … (a local declaration named like a package; then a use of it)
 	sEffect            // os.WriteFile(sentinel) / os.Setenv / os.Exit through the name `os`
+	sGoBuiltin         // go println("x") / go close(c) / … : the callee is a builtin (name)
+	sGoConv            // go int(1): a conversion (never builds)
+	sGoMethod          // go pkg.R0.M() / go R.M(): a method value of a supplied variable
+	sGoMacro           // {% macro Gm %}{% end %}{% go Gm() %} (templates)
 )
+
+// builtins that may be called in a statement, and two whose result `go` would discard
+var goBuiltins = []string{"println", "print", "close", "copy", "delete", "recover", "cap", "new"}
 
 type stmt struct {
 	kind int
@@ -95,12 +102,14 @@ type caseSpec struct {
 	envName   string
 	usesGo    bool
 	hasEffect bool
+	// a go statement that is no valid statement whatever AllowGoStmt says (conversion, discarded result)
+	goNeverBuilds bool
 }
 
 var fictitious = []string{"os", "os/exec", "unsafe", "syscall", "net/http", "./rel", "../rel", "lib/zz"}
 
 func stdDecls(r *proto.Rand, shadow bool) []decl {
-	ds := []decl{{"F0", "func"}, {"F1", "func"}, {"C0", "const"}, {"V0", "var"}}
+	ds := []decl{{"F0", "func"}, {"F1", "func"}, {"C0", "const"}, {"V0", "var"}, {"R0", "rvar"}}
 	if r.Intn(2) == 0 {
 		ds = append(ds, decl{"F2", "func"})
 	}
@@ -151,6 +160,9 @@ func generate(r *proto.Rand, n int) *caseSpec {
 		}
 		if r.Intn(4) == 0 {
 			c.globals = append(c.globals, globalSpec{name: "K", kind: "const"})
+		}
+		if r.Intn(3) == 0 {
+			c.globals = append(c.globals, globalSpec{name: "R", kind: "rvar"})
 		}
 	}
 	// imports
@@ -291,8 +303,48 @@ func generate(r *proto.Rand, n int) *caseSpec {
 			c.stmts = append(c.stmts, stmt{kind: sCall, name: "undeclared"})
 		}
 	}
+	// go statements whose callee is not a supplied function: builtins, a conversion, a method
+	// value, a macro
+	for i := 0; i < 2; i++ {
+		if r.Intn(4) > 0 {
+			continue
+		}
+		switch k := r.Intn(10); {
+		case k < 5:
+			c.stmts = append(c.stmts, stmt{kind: sGoBuiltin, name: goBuiltins[r.Intn(len(goBuiltins))]})
+		case k < 6:
+			c.stmts = append(c.stmts, stmt{kind: sGoConv})
+		case k < 8:
+			// a method value of a supplied variable
+			var cands []stmt
+			for _, g := range c.globals {
+				if g.kind == "rvar" {
+					cands = append(cands, stmt{kind: sGoMethod, name: g.name})
+				}
+			}
+			for _, is := range c.imports {
+				for _, p := range c.pkgs {
+					if p.path == is.path && c.supplied(p.path) && is.form == "D" && p.path != "os" {
+						cands = append(cands, stmt{kind: sGoMethod, pkg: p.name, name: "R0"})
+					}
+				}
+			}
+			if len(cands) > 0 {
+				c.stmts = append(c.stmts, cands[r.Intn(len(cands))])
+			}
+		case c.template:
+			c.stmts = append(c.stmts, stmt{kind: sGoMacro, name: fmt.Sprintf("Gm%d", len(c.stmts))})
+		}
+	}
 	for i := range c.stmts {
 		s := &c.stmts[i]
+		if s.kind >= sGoBuiltin {
+			c.usesGo = true
+			if s.kind == sGoConv || s.kind == sGoBuiltin && (s.name == "cap" || s.name == "new") {
+				c.goNeverBuilds = true
+			}
+			continue
+		}
 		if s.kind == sConst && !(s.pkg == "" && s.name == "K") {
 			s.name = "C0"
 			if s.pkg == "" {
@@ -351,6 +403,31 @@ func (c *caseSpec) goStmts() [][]string {
 			out = append(out, []string{"_ = " + c.ref(s)})
 		case sLocalShade:
 			out = append(out, []string{fmt.Sprintf("func() { %s := 1; _ = %s; %s }()", s.pkg, s.pkg, call)})
+		case sGoBuiltin:
+			switch s.name {
+			case "println", "print":
+				out = append(out, []string{fmt.Sprintf("go %s(\"gp\")", s.name)})
+			case "close":
+				out = append(out, []string{fmt.Sprintf("c%d := make(chan int)", i), fmt.Sprintf("go close(c%d)", i)})
+			case "copy":
+				out = append(out, []string{fmt.Sprintf("b%d := make([]int, 1)", i), fmt.Sprintf("go copy(b%d, b%d)", i, i)})
+			case "delete":
+				out = append(out, []string{fmt.Sprintf("m%d := map[string]int{}", i), fmt.Sprintf("go delete(m%d, \"k\")", i)})
+			case "recover":
+				out = append(out, []string{"go recover()"})
+			case "cap":
+				out = append(out, []string{fmt.Sprintf("b%d := make([]int, 1)", i), fmt.Sprintf("go cap(b%d)", i)})
+			case "new":
+				out = append(out, []string{"go new(int)"})
+			}
+		case sGoConv:
+			out = append(out, []string{"go int(1)"})
+		case sGoMethod:
+			out = append(out, []string{"go " + c.ref(s) + ".M()"})
+		case sGoMacro:
+			if c.template {
+				out = append(out, []string{fmt.Sprintf("macro %s %%}{%% end", s.name), fmt.Sprintf("go %s()", s.name)})
+			}
 		case sEffect:
 			out = append(out, []string{fmt.Sprintf("os.WriteFile(%q, nil, 0o600)", c.sentinel), fmt.Sprintf("os.Setenv(%q, \"1\")", c.envName), "os.Exit(3)"})
 		}
@@ -400,7 +477,12 @@ func (c *caseSpec) source() string {
 // ---------------------------------------------------------------------------------------------
 // model line
 
-func kindTok(k string) string { return k }
+func modelKind(k string) string {
+	if k == "rvar" {
+		return "var"
+	}
+	return k
+}
 
 func (c *caseSpec) line() string {
 	var b strings.Builder
@@ -418,7 +500,7 @@ func (c *caseSpec) line() string {
 		for _, p := range c.pkgs {
 			fmt.Fprintf(&b, " %s %s %d", p.path, p.name, len(p.decls))
 			for _, d := range p.decls {
-				fmt.Fprintf(&b, " %s %s", d.name, d.kind)
+				fmt.Fprintf(&b, " %s %s", d.name, modelKind(d.kind))
 			}
 		}
 	}
@@ -429,7 +511,7 @@ func (c *caseSpec) line() string {
 	fmt.Fprintf(&b, " %d", len(c.globals)+1)
 	fmt.Fprintf(&b, " rec__ func 0") // the harness's own helper is never named by the code
 	for _, g := range c.globals {
-		fmt.Fprintf(&b, " %s %s %d", g.name, g.kind, len(g.members))
+		fmt.Fprintf(&b, " %s %s %d", g.name, modelKind(g.kind), len(g.members))
 		for _, d := range g.members {
 			fmt.Fprintf(&b, " %s %s", d.name, d.kind)
 		}
@@ -468,6 +550,23 @@ func (c *caseSpec) line() string {
 			ops = append(ops, "en", use(s), "ex", "go")
 		case sLocalShade:
 			ops = append(ops, "en", "de "+s.pkg+" var", "id "+s.pkg, use(s), "ex")
+		case sGoBuiltin:
+			switch s.name {
+			case "println", "print", "recover", "new":
+				ops = append(ops, "id "+s.name, "go")
+			case "close":
+				ops = append(ops, fmt.Sprintf("de c%d var", i), "id close", fmt.Sprintf("id c%d", i), "go")
+			case "copy", "cap":
+				ops = append(ops, fmt.Sprintf("de b%d var", i), "id "+s.name, fmt.Sprintf("id b%d", i), "go")
+			case "delete":
+				ops = append(ops, fmt.Sprintf("de m%d var", i), "id delete", fmt.Sprintf("id m%d", i), "go")
+			}
+		case sGoConv:
+			ops = append(ops, "id int", "go")
+		case sGoMethod:
+			ops = append(ops, use(s), "go")
+		case sGoMacro:
+			ops = append(ops, "de "+s.name+" var", "en", "ex", "id "+s.name, "go")
 		case sEffect:
 			ops = append(ops, "se os WriteFile", "se os Setenv", "se os Exit")
 		}
@@ -518,6 +617,14 @@ var dummyVar = 7
 
 type dummyType struct{}
 
+// recT is a supplied value with a method
+type recT struct {
+	rec *recorder
+	key string
+}
+
+func (r recT) M() int { r.rec.hit(r.key); return 1 }
+
 func declValue(rec *recorder, key string, d decl) native.Declaration {
 	switch d.kind {
 	case "func":
@@ -536,6 +643,8 @@ func declValue(rec *recorder, key string, d decl) native.Declaration {
 		return 5
 	case "var":
 		return &dummyVar
+	case "rvar":
+		return &recT{rec, "M:" + key + d.name}
 	case "type":
 		return native.Declaration(nil)
 	}
@@ -586,6 +695,8 @@ func (c *caseSpec) options(rec *recorder) *scriggo.BuildOptions {
 				g[gs.name] = declValue(rec, "G:"+gs.name, decl{gs.name, "func"})
 			case "const":
 				g[gs.name] = 5
+			case "rvar":
+				g[gs.name] = &recT{rec, "M:G:" + gs.name}
 			case "pkg":
 				ds := native.Declarations{}
 				for _, d := range gs.members {
@@ -604,6 +715,7 @@ type observation struct {
 	runErr   string
 	panicked string
 	invoked  []string
+	prints   int
 	sentinel bool
 	env      bool
 }
@@ -630,7 +742,7 @@ func (c *caseSpec) execute(wantInvoked int) *observation {
 				obs.buildErr = err.Error()
 				return
 			}
-			if err := t.Run(io.Discard, nil, nil); err != nil {
+			if err := t.Run(io.Discard, nil, &scriggo.RunOptions{Print: func(any) { rec.hit("print") }}); err != nil {
 				obs.runErr = err.Error()
 			}
 		} else {
@@ -639,7 +751,7 @@ func (c *caseSpec) execute(wantInvoked int) *observation {
 				obs.buildErr = err.Error()
 				return
 			}
-			if err := p.Run(nil); err != nil {
+			if err := p.Run(&scriggo.RunOptions{Print: func(any) { rec.hit("print") }}); err != nil {
 				obs.runErr = err.Error()
 			}
 		}
@@ -650,7 +762,19 @@ func (c *caseSpec) execute(wantInvoked int) *observation {
 			time.Sleep(time.Millisecond)
 		}
 	}
-	obs.invoked = rec.set()
+	if obs.buildErr == "" && c.usesGo {
+		time.Sleep(2 * time.Millisecond) // let `go println` reach the print hook
+	}
+	for _, k := range rec.set() {
+		switch {
+		case k == "print":
+			obs.prints++
+		case strings.HasPrefix(k, "M:"):
+			// a method of a supplied value: supplied by construction, outside the model's table
+		default:
+			obs.invoked = append(obs.invoked, k)
+		}
+	}
 	if _, err := os.Stat(c.sentinel); err == nil {
 		obs.sentinel = true
 		os.Remove(c.sentinel)
@@ -694,6 +818,9 @@ func (c *caseSpec) oracle(obs *observation) (clause, detail string) {
 	}
 	if c.usesGo && !c.allowGo && built {
 		return "go-rejected-unless-allowed", "built with a go statement and AllowGoStmt=false"
+	}
+	if !c.allowGo && obs.prints > 0 {
+		return "no-goroutine-print-unless-allowed", "a go statement printed although AllowGoStmt=false"
 	}
 	// every invoked host function is one the embedder supplied under that very place
 	for _, k := range obs.invoked {
@@ -789,6 +916,13 @@ func (c *caseSpec) correspond(obs *observation, ans string) (name, impl string) 
 			return "", ""
 		}
 	}
+	if c.goNeverBuilds {
+		// `go` on a conversion or on a builtin whose result would be discarded is no statement
+		if obs.buildErr == "" {
+			return "build-outcome", "built with a go statement that is no statement"
+		}
+		return "", ""
+	}
 	want, ok := c.modelNatives(ans)
 	if !ok {
 		// the model rejects: the code must not build; the named classes must agree
@@ -869,7 +1003,7 @@ func (c *caseSpec) shrink(failing func() bool) {
 	}
 	c.usesGo = false
 	for _, s := range c.stmts {
-		if s.kind == sGo || s.kind == sGoLit || s.kind == sGoClosure {
+		if s.kind == sGo || s.kind == sGoLit || s.kind == sGoClosure || s.kind >= sGoBuiltin {
 			c.usesGo = true
 		}
 	}
